@@ -6,10 +6,25 @@
 use crate::core::Local;
 use crate::gen::rule::{gen_interleaving, gen_tie, rand_alt};
 use crate::gen::zone::{gen_leaps, gen_zone, rule_only, RuleMode, ZoneCfg};
-use crate::mon::{c03, c04, c05, c12, c13};
+use crate::mon::{c01, c02, c03, c04, c05, c12, c13, c14, c16, c18};
 use crate::util::rng::Rng;
 
-pub const PROPS: [&str; 7] = ["C03", "C04", "C05", "C06", "C12", "C13", "C17"];
+pub const PROPS: [&str; 12] = ["C01", "C02", "C03", "C04", "C05", "C06", "C12", "C13", "C14", "C16", "C17", "C18"];
+
+/// date-time fields straight from the tape: every field a little beyond its valid range, the year anywhere in i32
+fn fields(rng: &mut Rng) -> (i32, u8, u8, u8, u8, u8, u32) {
+    let y = match rng.below(4) {
+        0 => rng.next() as i32,
+        1 => *rng.pick(&[i32::MIN, i32::MIN + 1, i32::MAX - 1, i32::MAX, 0, -1, 1600, 1900, 2000, 2024, 2100]),
+        _ => rng.range(-3000, 5000) as i32,
+    };
+    let ns = match rng.below(3) {
+        0 => rng.next() as u32,
+        1 => *rng.pick(&[0u32, 1, 999_999_999, 1_000_000_000, u32::MAX]),
+        _ => rng.below(1_000_000_000) as u32,
+    };
+    (y, rng.below(15) as u8, rng.below(34) as u8, rng.below(26) as u8, rng.below(62) as u8, rng.below(63) as u8, ns)
+}
 
 /// Runs the case described by `data` for property `prop`; the violations are in the returned `Local`.
 pub fn run(prop: &str, data: &[u8]) -> Local {
@@ -21,6 +36,48 @@ pub fn run(prop: &str, data: &[u8]) -> Local {
     let mut rng = Rng::from_bytes(&data[1..]);
     let rng = &mut rng;
     match prop {
+        "C01" => {
+            let mut cnt = 0;
+            for _ in 0..8 {
+                let t = if sel & 1 == 0 { rng.next() as i64 } else { rng.range(crate::model::cal::min_unix() - 2, crate::model::cal::max_unix() + 2) };
+                c01::check(&mut l, t, rng.below(1_000_000_000) as u32, &mut cnt);
+            }
+        }
+        "C02" => {
+            for _ in 0..8 {
+                let (y, mo, d, h, mi, sec, ns) = fields(rng);
+                c02::check_new(&mut l, y, mo, d, h, mi, sec, ns);
+            }
+            c02::check_unix_round_trip(&mut l, rng.range(crate::model::cal::min_unix(), crate::model::cal::max_unix()));
+        }
+        "C14" => {
+            for _ in 0..8 {
+                let (y, mo, d, h, mi, sec, ns) = fields(rng);
+                let off = if rng.chance(1, 2) { (rng.next() as i32).max(i32::MIN + 1) } else { rng.range(-100_000, 100_000) as i32 };
+                c14::check_new(&mut l, y, mo, d, h, mi, sec, ns, off);
+            }
+        }
+        "C16" => {
+            for _ in 0..8 {
+                let n = (((rng.next() as i128) << 64) | rng.next() as i128) >> rng.below(110);
+                c16::check(&mut l, n);
+            }
+            let (y, _, _, _, _, _, ns) = fields(rng);
+            c16::check_ns_validation(&mut l, ns, y.clamp(-200_000, 200_000));
+        }
+        "C18" => {
+            for _ in 0..8 {
+                let (y, mo, d, h, mi, sec, ns) = fields(rng);
+                let off = if rng.chance(1, 3) { 0 } else if rng.chance(1, 2) { (rng.next() as i32).max(i32::MIN + 1) } else { rng.range(-100_000, 100_000) as i32 };
+                let ltt = c18::ltt_variant(&mut l, off, rng.below(4));
+                if let Ok(dt) = crate::facade::dt_new(y, mo, d, h, mi, sec, ns, ltt) {
+                    c18::check_dt(&mut l, &dt);
+                }
+                if let Ok(u) = crate::facade::utc_new(y, mo, d, h, mi, sec, ns) {
+                    c18::check_utc(&mut l, &u);
+                }
+            }
+        }
         "C03" => {
             let mut cfg = ZoneCfg::lookup();
             cfg.max_transitions = 40;
